@@ -390,7 +390,10 @@ class Ctx:
         e = dict(os.environ, GOMEMLIMIT='4GiB')
         if env:
             e.update(env)
-        return run_lines([self.harness_race if race else self.harness], lines, env=e, nproc=nproc or self.nproc)
+        h = self.harness_race if race else self.harness
+        if os.environ.get('VERIF_HARNESS_OVERRIDE') and not race:
+            h = os.environ['VERIF_HARNESS_OVERRIDE']  # analysis only (coverage-instrumented build, see DESIGN.md)
+        return run_lines([h], lines, env=e, nproc=nproc or self.nproc)
 
     def lean(self, lines, nproc=None):
         return run_lines([self.driver], lines, nproc=nproc or self.nproc)
